@@ -23,13 +23,22 @@ func VerifC16Queued() int { return len(clientMessageChan) }
 func VerifC16SaveState(lastMessages map[string]interface{}) { saveState(lastMessages) }
 
 // VerifC16NewSourceControl builds a SourceControl wired to the updater's channel as RunRPCServer does
-// (no socket, no goroutine, nothing drained), so that a harness can issue status requests such as
-// SendAllStatus through the real RPC method while RunClientUpdater runs.
+// (no socket; nothing taken from the updater's channel; the heartbeats of a running source are drained as
+// RunRPCServer's heartbeat goroutine does), so that a harness can issue requests such as SendAllStatus,
+// Start, WriteControl and Stop through the real RPC methods while RunClientUpdater runs.
 func VerifC16NewSourceControl(npre, nsamp int) *SourceControl {
 	sc := NewSourceControl()
 	sc.clientUpdates = clientMessageChan
+	ms := newMapServer()
+	ms.clientUpdates = clientMessageChan
+	sc.mapServer = ms
 	sc.status.Npresamp = npre
 	sc.status.Nsamples = nsamp
 	sc.ActiveSource = sc.triangle
+	hb := sc.heartbeats
+	go func() {
+		for range hb {
+		}
+	}()
 	return sc
 }
